@@ -13,6 +13,24 @@ VERIF = os.path.dirname(os.path.dirname(os.path.abspath(__file__)))
 REPO = os.environ.get('VERIF_REPO', '/repo')
 
 _scratch = None
+_children = set()
+
+
+def _kill_children(*_a):
+    for pid in list(_children):
+        try:
+            os.killpg(pid, signal.SIGKILL)
+        except (ProcessLookupError, PermissionError):
+            pass
+    if _a:   # called as a signal handler
+        if _scratch and not os.environ.get('VERIF_KEEP'):
+            shutil.rmtree(_scratch, ignore_errors=True)
+        os._exit(143)
+
+
+atexit.register(_kill_children)
+signal.signal(signal.SIGTERM, _kill_children)
+signal.signal(signal.SIGINT, _kill_children)
 
 
 def scratch():
@@ -40,8 +58,10 @@ def run(cmd, cwd=None, timeout=None, env=None, stdin=None):
     p = subprocess.Popen(cmd, cwd=cwd, env=e, stdout=subprocess.PIPE, stderr=subprocess.PIPE,
                          stdin=subprocess.DEVNULL if stdin is None else subprocess.PIPE,
                          start_new_session=True, text=True)
+    _children.add(p.pid)
     try:
         out, err = p.communicate(stdin, timeout=timeout)
+        _children.discard(p.pid)
         return p.returncode, out, err, time.time() - t0
     except subprocess.TimeoutExpired:
         try:
